@@ -121,7 +121,12 @@ def yaml_load(stream):
 def json_load(value):
     import json
 
-    return json.loads(value)
+    try:
+        return json.loads(value)
+    except json.JSONDecodeError:
+        raise
+    except ValueError as ex:  # e.g. an integer literal beyond the interpreter's int/str conversion limit
+        raise json.JSONDecodeError(str(ex), value, 0) from ex
 
 
 def toml_load(value):
